@@ -548,6 +548,25 @@ impl<'a> Interp<'a> {
         // layout must be the first answer's
         let lay: Vec<DevSig> = outs.iter().map(|(s, _)| s.clone()).collect();
         if lay != self.first_layout {
+            // A pure re-ordering (same signals, other order) still names a value for every
+            // signal of the layout: the row is an error item, the values are the latest read
+            // ones, and the history goes on. Any other deviation ends the compared history.
+            let mut a: Vec<String> = lay.iter().map(|s| format!("{s:?}")).collect();
+            let mut b: Vec<String> = self.first_layout.iter().map(|s| format!("{s:?}")).collect();
+            a.sort();
+            b.sort();
+            if a == b && self.opts.continue_after_row_errors {
+                let answers: HashMap<String, OutVal> = outs
+                    .iter()
+                    .filter_map(|(s, v)| match s {
+                        DevSig::Cfg(i) => Some((self.sigs[*i].name.clone(), *v)),
+                        DevSig::Unknown => None,
+                    })
+                    .collect();
+                self.prev_read = std::mem::replace(&mut self.last_read, answers);
+                self.last_call_was_midclock = false;
+                return self.row_level_error(RefErr::LayoutDeviation, vars);
+            }
             return Err(Stop::Err(RefErr::LayoutDeviation));
         }
         let answers: HashMap<String, OutVal> = outs
